@@ -18,10 +18,11 @@ EXPLANATION = (
     "use method='lower': boundaries are observed values; inner cut points only); R-nan-separate "
     "(missing values are excluded from every merge statistic and appended as their own modality); "
     "R-value-truthiness (no any()/all() over data values in the discretizer modules: a rare category "
-    "named '' or 0 must still be grouped)."
+    "named '' or 0 must still be grouped); R-order-only (boundaries are taken from the raw values "
+    "themselves: no cast, arithmetic or rounding between the column and the order statistics)."
 )
 NOT_DECIDED = "the >= min_freq / <= 2.5*min_freq bucket sizes on data (numerical, needs execution)"
-FLOORS = {"R-thresholds": 10, "R-boundaries-sorted-unique-inf": 4, "R-order-statistic": 3, "R-nan-separate": 5, "R-value-truthiness": 10}
+FLOORS = {"R-thresholds": 11, "R-boundaries-sorted-unique-inf": 4, "R-order-statistic": 3, "R-nan-separate": 5, "R-value-truthiness": 10, "R-order-only": 4}
 
 
 def check(ctx):
@@ -29,6 +30,7 @@ def check(ctx):
     quant.check_boundaries(ctx, "R-boundaries-sorted-unique-inf")
     quant.check_order_statistic(ctx, "R-order-statistic")
     quant.check_nan_separate(ctx, "R-nan-separate")
+    quant.check_order_only(ctx, "R-order-only")
     fns = [f for f in ctx.repo.all_functions() if f.module.relpath in (F_QUAL, F_QUAN, F_DISC)]
     check_truthiness(ctx, "R-value-truthiness", fns)
     check_or_default(ctx, "R-value-truthiness", [f for f in ctx.repo.all_functions() if "/selectors/" not in f.module.relpath])
@@ -51,6 +53,8 @@ MUTANTS = [
     M("outer cut points kept", [(F_QUAN, "                linspace(0, 1, new_q + 1)[1:-1],", "                linspace(0, 1, new_q + 1)[1:],")], "R-order-statistic", "inner cut"),
     M("missing values counted in the ordinal merge", [(F_QUAL, "            df_feature[not_nans]\n            .value_counts(dropna=False, normalize=False)", "            df_feature\n            .value_counts(dropna=False, normalize=False)")], "R-nan-separate", "excluded"),
     M("quantitative NaN not appended", [(F_QUAN, "    if any(X[feature].isna()):\n        order.append(str_nan)\n", "")], "R-nan-separate", "fit_feature"),
+    M("quantiles computed on a float cast of the column", [(F_QUAN, "    quantiles = find_quantiles(X[feature].values, q=q)", "    quantiles = find_quantiles(X[feature].astype(float).values, q=q)")], "R-order-only", "fit_feature"),
+    M("bucket shares over non-missing rows only", [(F_DISC, "    values = x.value_counts(dropna=dropna, normalize=normalize)", "    values = x[x != '__NAN__'].value_counts(dropna=dropna, normalize=normalize)")], "R-thresholds", "share of ALL rows"),
     M("degenerate test non-strict", [(F_DISC, "            if max_frequencies[feature] < self.min_freq:\n                warn(\n                    f\" - [QualitativeDiscretizer]", "            if max_frequencies[feature] <= self.min_freq:\n                warn(\n                    f\" - [QualitativeDiscretizer]")], "R-thresholds", "dropped iff"),
 ]
 BENIGN = [
